@@ -51,7 +51,7 @@ CLAIMS = {
                 text="PARTIAL proof: a vertex that enters through the Edit API drops the duplicate index (so the next insert re-seeds it from all vertices); mutable accessors drop it; batch dedup functions equal the greedy filter for every duplicate relation (N <= 4, bounded). insert_transactional's own index update and the UUID map are not under contract.",
                 note=_NOTE),
     "C11": dict(technique="deductive contracts: Kani caller-against-callee-contracts, one hull query per harness, all pairs of generations; Kani K-full on snapshot/generation sharing",
-                text="PARTIAL proof: every hull query refuses a hull whose triangulation generation differs from its creation generation, before any cache build or facet access; validity predicate <=> equality; generation bumps are exactly +1. That every mutator bumps (storage code) and that the facets are the geometric hull are undecided. Added: a Tds snapshot (clone) shares the generation counter, so bumps made by a failed operation survive the rollback.",
+                text="PARTIAL proof: the validity predicate <=> equality of generations, for all pairs; find_visible_facets / is_facet_visible_from_point refuse a stale hull before any cache build or per-facet work for all pairs of distinct generations (per-facet helper stubbed); validate / is_point_outside / find_nearest_visible_facet for concrete generation pairs only (quick: validate; thorough: the others); generation bumps are exactly +1. That every mutator bumps (storage code) and that the facets are the geometric hull are undecided. Added: a Tds snapshot (clone) shares the generation counter, so bumps made by a failed operation survive the rollback.",
                 note=_NOTE),
     "C14": dict(technique="deductive contracts: Kani K-full comparator lemmas over all f64; K-callee on the Hilbert ordering with an arbitrary grid-cell function; Kani K-slice on the two retry wrappers (same seed schedule)",
                 text="PARTIAL proof: ordering keys depend on coordinates only (total, lexicographic, antisymmetric, transitive; UUID/data ignored); Hilbert and lexicographic orderings of two distinct points do not depend on the caller's order (also inside one grid cell); shuffle seed is order-free (N <= 3, bounded). Equality of the resulting cell sets is undecided.",
